@@ -72,11 +72,15 @@ impl OperationControl for UnambiguousRepeat {
         matcher: &'a ReMatcher,
         position: usize,
     ) -> Box<dyn Iterator<Item = usize> + 'a> {
+        #[cfg(regexml_verif)]
+        crate::verif::tick();
         let guard = matcher.search.len();
 
         let mut p = position;
         let mut matches = 0;
         while matches < self.max && p <= guard {
+            #[cfg(regexml_verif)]
+            crate::verif::tick();
             let mut iter = self.operation.matches_iter(matcher, p);
             if let Some(n) = iter.next() {
                 p = n;
